@@ -62,7 +62,20 @@ def nt_c13(tr):
     return has(tr, 1, lambda e: e[6] == 1) and has(tr, 27) and (has(tr, 8) or has(tr, 7, lambda e: e[2] == 1))
 
 
+def nt_c11(tr):
+    # a configured timeout and a handler that was abandoned, or one that slept and completed
+    return has(tr, 1, lambda e: e[3] > 0 and e[6] == 0) and (has(tr, 9, lambda e: e[3] == 1) or has(tr, 11))
+
+
 PROPS = {
+    "C11": {
+        "families": [("timeouts", 1200, 30000), ("faults", 200, 6000)],
+        "monitors": ["C11"],
+        "theorems": ["C11_abandon_only_past_limit"],
+        "nontrivial": nt_c11,
+        "rule": "cases generated from (family, VERIF_SEED, index): timeouts 2..40 (even), handler sleeps odd so that no handler needs exactly t, further messages queued behind slow ones, fail_on_timeout in {false,true}, both mailbox kinds; non-trivial = an actor with a configured timeout ran a handler that slept or was abandoned; distinct = distinct case JSON",
+        "assumptions": ["virtual clock of the harness executor; durations exactly equal to the timeout (a genuine select! tie) are not generated"],
+    },
     "C13": {
         "families": [("streams", 1200, 30000)],
         "monitors": ["C13", "C03"],
@@ -105,6 +118,14 @@ COMMON_NOTE = ("Trusted: Coq kernel; the hand-written model's fidelity (checked 
                "No axioms. Real-thread races inside external crates and real wake-ups beyond the sampled cases are outside.")
 
 MANIFEST_TEXT = {
+    "C11": {
+        "text": "Theorem C11_abandon_only_past_limit (Coq, simulation): on every execution the model accepts an invocation is abandoned only past its configured limit (never without a timeout, never on stream-attached actors) "
+                "and completes only within it. [partial] exactness (abandoned at t, not later), 'caller receives an error', 'no further effects' and 'state intact / actor failed' are enforced by model rules "
+                "(progress check at clock events; slot cancellation; phase after abandonment) and validated by correspondence plus the search acceptor, not stated as separate theorems.",
+        "note": COMMON_NOTE,
+        "technique": "Rocq/Coq proof (simulation) over an executable model with a virtual clock; correspondence by differential run of model and implementation",
+        "design_ref": "DESIGN.md section 6 C11",
+    },
     "C13": {
         "text": "Theorems C13_items_in_order_never_abandoned and C13_end_protocol (Coq, simulation): on every execution the model accepts, stream items are handled exactly once in stream order, "
                 "nothing of a stream-attached actor is abandoned short of a task cancellation, and the end protocol finished-then-stopped-then-graceful-end holds (lifecycle automaton). "
